@@ -421,6 +421,11 @@ func plantEnumFirstValueNonZero(e *Editor, ws *Workspace) (*Plant, bool) {
 	for _, v := range s.Enum.Values {
 		used[v.Number] = true
 	}
+	for _, r := range s.Enum.ReservedRanges {
+		for k := r.Start; k <= r.End && k-r.Start < 100000; k++ {
+			used[k] = true
+		}
+	}
 	n := int32(50)
 	for used[n] {
 		n++
@@ -482,6 +487,34 @@ func plantRPCSameReqResp(e *Editor, ws *Workspace) (*Plant, bool) {
 	x.m.Output = x.m.Input
 	return &Plant{Op: "rpc-same-request-response", Rule: "RPC_REQUEST_RESPONSE_UNIQUE", Desc: x.s.Name + "." + x.m.Name + " response = request", Sites: []string{x.m.ID},
 		Also: []string{"RPC_RESPONSE_STANDARD_NAME"}}, true
+}
+
+// plantRPCSharedRequestAcrossServices: two RPCs of the same name in different services share one request type.
+func plantRPCSharedRequestAcrossServices(e *Editor, ws *Workspace) (*Plant, bool) {
+	type pair struct{ a, b rpcSite }
+	var pairs []pair
+	sites := rpcSites(ws)
+	for _, a := range sites {
+		for _, b := range sites {
+			if a.f == b.f && a.s != b.s {
+				pairs = append(pairs, pair{a, b})
+			}
+		}
+	}
+	if len(pairs) == 0 {
+		return nil, false
+	}
+	p := pairs[e.pick("pair", len(pairs))]
+	for _, m := range p.b.s.Methods {
+		if m != p.b.m && m.Name == p.a.m.Name {
+			return nil, false
+		}
+	}
+	p.b.m.Name = p.a.m.Name
+	p.b.m.Input = p.a.m.Input
+	return &Plant{Op: "rpc-shared-request-across-services", Rule: "RPC_REQUEST_RESPONSE_UNIQUE",
+		Desc: fmt.Sprintf("%s.%s and %s.%s (same rpc name) both take %s", p.a.s.Name, p.a.m.Name, p.b.s.Name, p.b.m.Name, p.a.m.Input),
+		Sites: []string{p.a.m.ID, p.b.m.ID}, Also: []string{"RPC_RESPONSE_STANDARD_NAME"}}, true
 }
 
 func plantRPCRequestName(e *Editor, ws *Workspace) (*Plant, bool) {
@@ -985,6 +1018,7 @@ var PlantOps = []PlantOp{
 	{"rpc-streaming", plantStreaming},
 	{"rpc-same-request-response", plantRPCSameReqResp},
 	{"rpc-nonstandard-name", plantRPCRequestName},
+	{"rpc-shared-request-across-services", plantRPCSharedRequestAcrossServices},
 	{"comment-missing", plantCommentMissing},
 	{"import-unused", plantImportUnused},
 	{"import-public", plantImportPublic},
